@@ -300,7 +300,21 @@ def _decoders():
     return hs
 
 
+def _hash_noop():
+    fn = ["plonky2/src/plonk/config.rs::Hasher::hash_or_noop"]
+    hs = []
+    for n, widths in ((25, (0, 1, 3, 4, 5)), (32, (3, 4, 5))):
+        for w in widths:
+            hs.append(H("hash_noop::noop%d_w%d" % (n, w), fn,
+                        "toy hasher with HASH_SIZE = %d (hash_no_pad returns a marker); leaf width %d, all canonical limb values; unwind 40" % (n, w),
+                        "hash_or_noop: a leaf with 8*width <= HASH_SIZE is used verbatim (LE canonical limbs, zero padded), a wider one is hashed",
+                        est=6, assumptions=[STUB_BRANCH_HINT, "toy Hasher impls in the harness: only the default trait method hash_or_noop is real code"],
+                        role="noop-threshold-or-copy"))
+    return hs
+
+
 HARNESSES = {
+    "hash_noop": ("C12", _hash_noop),
     "util_perm": ("C15", _util_perm),
     "field_addsub": ("C14", _field_addsub),
     "fri_params": ("C05", _fri_params),
